@@ -221,7 +221,7 @@ def run(tier):
     R.floor('constructor instantiations for the dispatch rule', nd, 150)
     st = equivalence(L, R, frozen, tier)
     R.evaluations = st['runs']
-    R.floor('pair instantiations', st['runs'], 1500 if tier == 'quick' else 3000)
+    R.floor('pair instantiations', st['runs'], 1500)
     R.floor("stored values compared by normal form", st["compared"], 8000)
     R.extra.update(st)
     from ..asm import load_models
